@@ -188,13 +188,15 @@ def real_runs(progs, cfgs, trace=True):
     runs = []
     allres = [(j, res[j["id"]]) for j in jobs] + [(j, res1[j["id"]]) for j in jobs1 if res1[j["id"]].get("crash") or not
               next(p for p in progs if p["name"] == j["id"].split("|")[0]).get("terminates")]
+    term = {p["name"]: bool(p.get("terminates")) for p in progs if p["runnable"]}     # (a program whose probe stayed inconclusive counts as non-terminating)
     for j, r in allres:
         name = j["id"].split("|")[0]
         runs.append({"id": j["id"], "prog": name, "mode": j["mode"], "gomaxprocs": j["gomaxprocs"], "monitor": j["monitor"], "subscriber": j.get("subscriber", False),
                      "yield": j["yield"], "seed": j["seed"], "crash": r.get("crash"), "hang": r.get("hang", False) or r.get("timeout", False),
                      "prints": r.get("prints"), "blocked": r.get("blocked"), "late": r.get("late", 0), "pcount": r.get("pcount"),
                      "dcount": r.get("dcount"), "events": [] if r.get("overflow") or r.get("timeout") else (r.get("events") or []),
-                     "ran": r.get("ran", False), "nonterminating": bool(r.get("timeout") or r.get("overflow"))})
+                     "ran": r.get("ran", False),
+                     "nonterminating": bool(r.get("timeout") or r.get("overflow")) or not term.get(name, True)})
     return runs
 
 
